@@ -175,15 +175,20 @@ PY_LEAF = {'datetime': 'OffsetDateTime', 'bytes': 'Vec<u8>'}
 
 
 def py_focus(rng):
-    """Python programs on the boundary of the two recorded classes (what C12_python proves beyond the body):
-    a serde(default) OffsetDateTime / Vec<u8> field with or without something else in the file that registers the
-    plain text (plain sibling field, field of another struct or of a struct variant, the formatter itself below
-    Option / Vec / HashMap, a payload, an alias), and a generic alias with or without a struct / data-carrying
-    enum (or only a unit enum, or a struct on ANOTHER parameter) declaring the TypeVar.  -> (source, cfg, info)"""
+    """Python programs on the boundary of the two REPAIRED classes C12-python-default-translation / C12-python-alias-typevar
+    (fixed in /repo: c12_py_known is constantly None, every one of these inputs is judged like any other): a serde(default)
+    OffsetDateTime / Vec<u8> field with or without something else in the file that registers the plain text (plain sibling
+    field, field of another struct or of a struct variant, the formatter itself below Option / Vec / HashMap, a payload, an
+    alias), and a generic alias with or without a struct / data-carrying enum (or only a unit enum, or a struct on ANOTHER
+    parameter) declaring the TypeVar; and ('phantom') a generic struct / struct variant whose parameter is listed in the class
+    header (`Generic[T]`) but never formatted as a type - it occurs only in a serde(skip) PhantomData marker, or only inside the
+    arguments of a generic type that type_mappings replaces - so that its TypeVar exists only if the WRITER of the item declares it
+    (seeded C12_f declares TypeVars where a parameter is formatted; since the repair of write_type_alias that change no longer differs
+    from the code on aliases, only here).  -> (source, cfg, info)"""
     names = rng.sample(TYPE_NAMES, 6)
     items, generics, triggers = [], [], set()
     cfg = {'type_mappings': rng.choice([{}, {'Vec<u8>': 'bytes'}, {'Vec<u8>': 'bytes'}])}
-    parts = rng.choice([['default'], ['alias'], ['default', 'alias']])
+    parts = rng.choice([['default'], ['alias'], ['default', 'alias'], ['phantom'], ['alias', 'phantom'], ['default', 'phantom']])
     if 'default' in parts:
         kinds = rng.sample(['datetime', 'bytes'], rng.choice([1, 1, 2]))
         fields = [f'    #[serde(default)]\n    pub d{i}: {PY_LEAF[kd]},\n' for i, kd in enumerate(kinds)]
@@ -236,6 +241,18 @@ def py_focus(rng):
             items.insert(rng.randint(0, len(items)), f'#[typeshare]\n#[serde(tag = "type", content = "content")]\npub enum {names[5]}<{g}> {{\n    A {{\n        v: {g},\n    }},\n}}\n')
         elif comp == 'alias_other':
             items.insert(rng.randint(0, len(items)), f'#[typeshare]\npub type {names[5]}Al<{g}> = Vec<{g}>;\n')
+    if 'phantom' in parts:
+        free = [x for x in GENERIC_NAMES if x not in generics] or GENERIC_NAMES
+        g = rng.choice(free)
+        generics.append(g); triggers.add('phantom_generic')
+        shape = rng.choice(['skip', 'mapped_args', 'variant_skip'])
+        if shape == 'skip':
+            items.insert(rng.randint(0, len(items)), f'#[typeshare]\npub struct {names[2]}Ph<{g}> {{\n    #[serde(skip)]\n    pub marker: std::marker::PhantomData<{g}>,\n    pub n: u32,\n}}\n')
+        elif shape == 'mapped_args':
+            cfg = {'type_mappings': dict(cfg['type_mappings'], Boxed='int')}
+            items.insert(rng.randint(0, len(items)), f'#[typeshare]\npub struct {names[2]}Mp<{g}> {{\n    pub b: Boxed<{g}>,\n    pub n: u32,\n}}\n')
+        else:
+            items.insert(rng.randint(0, len(items)), f'#[typeshare]\n#[serde(tag = "type", content = "content")]\npub enum {names[2]}Pv<{g}> {{\n    A {{\n        #[serde(skip)]\n        marker: std::marker::PhantomData<{g}>,\n        n: u32,\n    }},\n    B,\n}}\n')
     if 'wrap' in triggers:
         items.insert(rng.randint(0, len(items)), '#[typeshare]\npub struct Wrap<W> {\n    pub inner: W,\n}\n')
         generics.append('W')
@@ -468,10 +485,15 @@ def cases_for(rng, n):
 WITNESSES = [
     # (finding id, lang, cfg, source).  C12-scala-unsigned-depth is FIXED in /repo (recursive unsigned_integer_used): c12_sc_known is
     # constantly None, so its two witnesses are judged like any other input - an undefined UShort / UByte / UInt is a violation again.
+    # C12-python-alias-typevar and C12-python-default-translation are FIXED in /repo as well (write_type_alias calls add_type_var for
+    # the alias's parameters; write_field registers the unwrapped type): c12_py_known is constantly None, the two witnesses (and the
+    # variations below) must pass - an undefined T / parse_rfc3339 / serialize_datetime_data is a violation again.
     ('C12-scala-unsigned-depth', 'scala', {'package': 'com.p', 'module_name': 'm'}, '#[typeshare]\npub type Grid = Vec<Vec<u16>>;\n'),
     ('C12-scala-unsigned-depth', 'scala', {'package': 'com.p', 'module_name': 'm'}, '#[typeshare]\npub struct S {\n    pub a: [u8; 2],\n    pub b: &\'static [u32],\n}\n'),
     ('C12-python-alias-typevar', 'python', {}, '#[typeshare]\npub type GA<T> = Vec<T>;\n'),
     ('C12-python-default-translation', 'python', {}, '#[typeshare]\npub struct S {\n    #[serde(default)]\n    pub at: OffsetDateTime,\n}\n'),
+    ('C12-python-default-translation', 'python', {'type_mappings': {'Vec<u8>': 'bytes'}}, '#[typeshare]\npub struct S {\n    #[serde(default)]\n    pub raw: Vec<u8>,\n}\n'),
+    ('C12-python-alias-typevar', 'python', {}, '#[typeshare]\npub type GA<T> = HashMap<String, Vec<T>>;\n#[typeshare]\npub type GB<U> = Option<U>;\n#[typeshare]\npub struct S<K> {\n    pub k: K,\n}\n'),
     ('C12-kotlin-empty-package', 'kotlin', {'package': '', 'module_name': 'm', 'prefix': ''}, '#[typeshare]\npub struct S {\n    pub a: u8,\n}\n'),
     ('C12-kotlin-jvminline', 'kotlin', {'package': 'com.p', 'module_name': 'm', 'prefix': ''}, '#[typeshare(kotlin = "JvmInline")]\npub struct Id(String);\n'),
 ]
@@ -482,10 +504,10 @@ WITNESSES = [
 PINS = [
     # Proofs/C12.v c12_py_full_pd / Props C12_python_nonvacuous
     ('C12_python_nonvacuous', 'python', {'type_mappings': {'Vec<u8>': 'bytes'}},
-     '#[typeshare]\npub type GA<T> = Vec<T>;\n\n#[typeshare]\npub struct S<T> {\n    pub a: T,\n    #[serde(default)]\n    pub at: OffsetDateTime,\n    pub at2: OffsetDateTime,\n'
+     '#[typeshare]\npub type GA<T> = Vec<T>;\n\n#[typeshare]\npub type GB<U> = Vec<U>;\n\n#[typeshare]\npub struct S<T> {\n    pub a: T,\n    #[serde(default)]\n    pub at: OffsetDateTime,\n    pub at2: OffsetDateTime,\n'
      '    #[serde(default)]\n    pub raw: Vec<u8>,\n    pub raw2: Option<Option<Vec<u8>>>,\n}\n'),
 ]
-PIN_USES = {'C12_python_nonvacuous': ['T', 'TypeVar', 'parse_rfc3339', 'serialize_datetime_data', 'deserialize_binary_data', 'serialize_binary_data', 'datetime',
+PIN_USES = {'C12_python_nonvacuous': ['T', 'U', 'TypeVar', 'parse_rfc3339', 'serialize_datetime_data', 'deserialize_binary_data', 'serialize_binary_data', 'datetime',
                                       'Annotated', 'Generic', 'Optional', 'List']}
 
 
@@ -539,9 +561,10 @@ def run(chk):
                 'parameters) whose member types are a trigger leaf ((), u8/u16/u32/U53, OffsetDateTime, Vec<u8>, a generic parameter) or a plain leaf '
                 'wrapped 0-5 times in Vec/Option/HashMap/[T;3]/&[T]/Box/Wrap<T>; serde(default), Option, renamed keys; 25% single-trigger programs; '
                 'configurations: Swift prefix, CodableVoid constraints, Kotlin empty package / prefix / JvmInline, Go acronyms / no_pointer_slice, Python '
-                'Vec<u8> -> bytes mapping; plus Python programs on the boundary of the two Python classes (py_focus: a serde(default) OffsetDateTime / '
+                'Vec<u8> -> bytes mapping; plus Python programs on the boundary of the two repaired Python classes (py_focus: a serde(default) OffsetDateTime / '
                 'Vec<u8> field with / without something else registering the plain text; a generic alias with / without a struct / data-carrying enum '
-                'declaring its parameter) and the non-vacuity input of C12_python as real source. non-trivial =distinct (language, configuration, program) inside dom with a non-empty use set')
+                'declaring its parameter - all judged without a class since the repairs; a generic struct / struct variant whose parameter is only in the class header: '
+                'serde(skip) PhantomData marker, arguments of a mapped generic) and the non-vacuity input of C12_python as real source. non-trivial =distinct (language, configuration, program) inside dom with a non-empty use set')
     chk.assumptions = ['syn is not modelled: the model receives the AST libdrive produces from the same text',
                        'the real observation is recovered from text by a token-level reader (strings/comments removed by lib/extract.py lexers); '
                        'Python additionally through ast.parse + name resolution; no Swift/Scala/Kotlin/Go compiler is installed',
@@ -551,14 +574,14 @@ def run(chk):
         return
     rng = chk.rng
     n = 6000 if chk.tier == "quick" else 90000
-    wit = [{'lang': l, 'cfg': cfg, 'src': s, 'info': {'generics': ['T'], 'positions': [], 'triggers': ['witness']}, 'witness': fid} for fid, l, cfg, s in WITNESSES]
+    wit = [{'lang': l, 'cfg': cfg, 'src': s, 'info': {'generics': ['T', 'U', 'K'], 'positions': [], 'triggers': ['witness']}, 'witness': fid} for fid, l, cfg, s in WITNESSES]
     # Python, the halves C12_python adds to the body theorem (TypeVar for every parameter, helper functions defined, header uses):
-    # programs on the boundary of the two classes, and the non-vacuity example of the theorem as real source
+    # programs on the boundary of the two repaired classes, and the non-vacuity example of the theorem as real source
     focus = []
     for _ in range(800 if chk.tier == 'quick' else 12000):
         src, cfg, info = py_focus(rng)
         focus.append({'lang': 'python', 'cfg': cfg, 'src': src, 'info': info})
-    pins = [{'lang': l, 'cfg': cfg, 'src': s, 'info': {'generics': ['T'], 'positions': [], 'triggers': ['pin']}, 'pin': name} for name, l, cfg, s in PINS]
+    pins = [{'lang': l, 'cfg': cfg, 'src': s, 'info': {'generics': ['T', 'U'], 'positions': [], 'triggers': ['pin']}, 'pin': name} for name, l, cfg, s in PINS]
     cases = wit + pins + focus + cases_for(rng, n)
     res = evaluate(chk, cases)
     corr = []
@@ -572,6 +595,12 @@ def run(chk):
             chk.count(f'pos_{pos}'); chk.count(f'depth_{d}'); chk.count(f'trigger_{w}')
         impl, model = r['impl'], r['model']
         equal = (impl[0] == model[0]) if impl[0] != 'ok' or model[0] != 'ok' else (impl[1:] == model[1:])
+        if str(c.get('witness', '')).startswith('C12-python'):
+            # witnesses of the two repaired Python classes: generated, inside the domain, in no class (the verdict itself is the
+            # general judgement below: an undefined helper name is a violation with this input)
+            chk.count('fixed_python_witnesses')
+            if impl[0] != 'ok' or not r['dom'] or r['known'] is not None:
+                chk.violation(f'witness-{k}', payload_of(r), f'the witness of the repaired class {c["witness"]} is no longer generated, inside c12_py_dom and in no class', no_input=True)
         if impl[0] != 'ok':
             chk.count('impl_' + impl[0])
             if model[0] == 'ok' or (impl[0] in ('panic', 'abort')) != (model[0] == 'panic'):
